@@ -141,6 +141,13 @@ def h_assign(ctx, skeleton, obj, param, kind, grouped=None):
     V.observe_system(ctx, objs)
     cls = CLASSES[CLS_OF[obj]]
     value, v = bad_value(ctx, kind, cls, param)
+    if grouped in ("link_first", "list_first", "link_and_list_first"):
+        # valid structural changes (a link to a spare server, a list with a spare job) submitted together with the invalid
+        # value: the spare objects are part of the snapshot, so a back link left on them by the refused update shows
+        from efootprint.core.usage.job import Job
+        objs["spare_st"] = Storage.from_defaults("spare storage")
+        objs["spare_srv"] = Server.from_defaults("spare server", storage=objs["spare_st"])
+        objs["spare_job"] = Job.from_defaults("spare job", server=objs["spare_srv"])
     before = S.snapshot(objs)
     lab = f"{obj}.{param} = {kind}" + (f" ({grouped})" if grouped else "")
     target = objs[obj]
@@ -157,6 +164,12 @@ def h_assign(ctx, skeleton, obj, param, kind, grouped=None):
             elif grouped == "noop_between":
                 cur = objs["net"].bandwidth_energy_intensity
                 ModelingUpdate([good, [cur, SourceValue(cur.value)], bad])
+            elif grouped == "link_first":
+                ModelingUpdate([[objs["job"].server, objs["spare_srv"]], bad])
+            elif grouped == "list_first":
+                ModelingUpdate([[objs["step"].jobs, [objs["job"], objs["spare_job"]]], bad])
+            elif grouped == "link_and_list_first":
+                ModelingUpdate([[objs["step"].jobs, [objs["spare_job"], objs["job"]]], [objs["job"].server, objs["spare_srv"]], good, bad])
             else:
                 ModelingUpdate([good, bad] if grouped == "valid_first" else [bad, good])
     except Exception as e:  # noqa
@@ -294,6 +307,13 @@ def plan(tier, seed):
         for g in ("noop_first", "noop_between"):
             p.append(("assign", dict(skeleton="T1", obj=o, param=q, kind="sign", grouped=g)))
             p.append(("assign", dict(skeleton="T1", obj=o, param=q, kind=f"dim:{other_dim_units(cls, q)[0]}", grouped=g)))
+    # a valid link / list change submitted together with (before) the invalid value
+    for o, q in (("job", "data_transferred"), ("srv", "ram"), ("dev", "power"), ("net", "bandwidth_energy_intensity")):
+        cls = CLASSES[CLS_OF[o]]
+        for g in ("link_first", "list_first", "link_and_list_first"):
+            p.append(("assign", dict(skeleton="T1", obj=o, param=q, kind="sign", grouped=g)))
+            p.append(("assign", dict(skeleton="T1", obj=o, param=q, kind=f"dim:{other_dim_units(cls, q)[0]}", grouped=g)))
+        p.append(("assign", dict(skeleton="T1", obj=o, param=q, kind=TYPE_KINDS[0], grouped="link_first")))
     if tier == "quick":
         keep = [x for x in live if x[1]["kind"] == "sign"]
         rest = [x for x in live if x[1]["kind"] != "sign"]
